@@ -646,33 +646,30 @@ func c11Splice(c *Ctx) {
 		r.Unresolve("C11.7", "stream.(*eventSnapshot).spliceFromTopicBuffer", "not found")
 	} else {
 		idx := f.Params[len(f.Params)-1]
-		var gt *ssa.BinOp
-		for _, b := range f.Blocks {
-			for _, in := range b.Instrs {
-				if cmp, ok := in.(*ssa.BinOp); ok {
-					switch {
-					case cmp.Op == token.GTR && cmp.Y == ssa.Value(idx) && core.AccessOf(cmp.X).LastField() == "Index":
-						gt = cmp
-					case cmp.Op == token.LSS && cmp.X == ssa.Value(idx) && core.AccessOf(cmp.Y).LastField() == "Index":
-						gt = cmp
-					}
-				}
+		// comparisons of the function and of the predicates it calls (core.Comparisons)
+		cmps := core.Comparisons(f, 2)
+		var gtTrue []core.Edge
+		gtFound := false
+		for _, cmp := range cmps {
+			switch {
+			case cmp.Op == token.GTR && cmp.Y == ssa.Value(idx) && core.AccessOf(cmp.X).LastField() == "Index":
+				gtFound = true
+				gtTrue = append(gtTrue, cmp.True...)
+			case cmp.Op == token.LSS && cmp.X == ssa.Value(idx) && core.AccessOf(cmp.Y).LastField() == "Index":
+				gtFound = true
+				gtTrue = append(gtTrue, cmp.True...)
 			}
 		}
 		bad := ""
-		if gt == nil {
+		if !gtFound {
 			bad = "the join point is not the first item with an index strictly larger than the snapshot's: events already contained in the snapshot are replayed, or newer ones skipped"
 		} else {
 			// AppendItem calls: each lies below the gt-true edge, an Err != nil edge, or the end-of-buffer (!ok) edge
-			te, _ := core.CondEdges(gt)
 			var okEdges []core.Edge
-			okEdges = append(okEdges, te...)
-			for _, b := range f.Blocks {
-				for _, in := range b.Instrs {
-					if cmp, ok := in.(*ssa.BinOp); ok && cmp.Op == token.NEQ && core.IsNilConst(cmp.Y) && core.AccessOf(cmp.X).LastField() == "Err" {
-						t2, _ := core.CondEdges(cmp)
-						okEdges = append(okEdges, t2...)
-					}
+			okEdges = append(okEdges, gtTrue...)
+			for _, cmp := range cmps {
+				if cmp.Op == token.NEQ && core.IsNilConst(cmp.Y) && core.AccessOf(cmp.X).LastField() == "Err" {
+					okEdges = append(okEdges, cmp.True...)
 				}
 			}
 			for _, in := range staticCallsNamed(f, "NextNoBlock") {
